@@ -96,6 +96,18 @@ CHECKS = {
         "trusted_base": ["Model/Iso.v hand written; Spec/SpecIso.v written from the property text"],
         "assumptions": ["observations have 2 private and 0/3/4/5 board cards, disjoint, inside the deck"],
     },
+
+    "C06": {
+        "harness": ["c06"], "level": "proof", "shortdeck": True,
+        "technique": "Coq theorems (Gosper step = colex successor, iterator = increasing list of k-subsets of the free cards, counts = binomials, class counts = Burnside formula = published constants) + per-run replay of iterator runs through the extracted model and specification",
+        "level_text": "Theorems over the executable model of HandIterator / ObservationIterator / IsomorphismIterator; the published per-street constants (regenerated from street.rs) are proved equal to the counting formulas and to the Burnside value. Per run: hand iterators for k in 0..7 over structured blocking masks (count, xor, sum, order, ends, full list when small) against the extracted model and the extracted specification enumerator; the observation / isomorphism iterators are run to exhaustion (pre-flop and flop in quick, turn in thorough) and their counts, strict order and canonical counts judged against the formulas; children of sampled observations.",
+        "level_note": "Trusted: Coq kernel, hand-written model (validated per run), translator (published constants), extraction + glue, harness. Known finding D4 (k = 0 yields no hand; a unit test pins it). The lemma 'Burnside fixed-point formula = number of fixed observations' is arithmetic-checked against exhaustive execution, not proved in general (partial).",
+        "rule": "hands k mask: digest (count, xor, wrapping sum, strictly-increasing flag, first/last four, size_hint, full list if <= 300) of HandIterator::from((k, mask)); obsit/isoit street: full run of the iterators (count, order, canonical count, head); children: successors of sampled observations. A case is trivial when it is judged by the specification only (k >= 6: the 20M / 134M pattern scan is not replayed in the model)",
+        "exhaustive": {"quick": False, "thorough": False},
+        "explanation": "iterator digests vs extracted model and extracted combs specification; counts vs formulas proved equal to the published constants",
+        "trusted_base": ["Model/Hands.v hand written; Spec/SpecCombs.v written from the property text"],
+        "assumptions": ["blocking masks are hands of the configured deck"],
+    },
     "C15": {
         "harness": "c15", "level": "proof",
         "technique": "Coq theorems (round trips, injectivity, key-set NoDup by reflection) over an executable codec model + per-run model/implementation correspondence on integer codes",
